@@ -2,15 +2,15 @@
 C01 – every accepted write gets exactly one in-order joined response.
 
 Model: `Uniflow.Writer` (index-addressed transcription of `pkg/packet/writer.go`, `reader.go`,
-`packet.Join`, after the three `fix:` commits).  Specification: `Uniflow.WriterSpec` (rows keyed
+`packet.Join`, after the four `fix:` commits).  Specification: `Uniflow.WriterSpec` (rows keyed
 by reader id and write id).  All theorems quantify over every history `h : List Step`, any number
 of readers, no length bound.
 
-Known finding `relink-with-pending` (DESIGN.md §7 row 5): after `unlink r` with a request
-outstanding and `link r` again, the model (like the Go code) credits r's late answer to the next
-write.  The refinement is therefore proved under `NoRelink` (`C01.refines_partial`), the full
-statement is kept as `C01.refines_full` and refuted from a concrete history
-(`C01.refines_full_false`).  Everything else below holds for all histories.
+Former known finding `relink-with-pending` (DESIGN.md §7 row 5): after `unlink r` with a request
+outstanding and `link r` again, the code credited r's late answer to the next write.  Fixed by
+link generations (every `Link` gets a fresh generation, requests carry it, `receive` compares):
+the refinement `C01.refines : C01.refines_full` now holds for every history; the defect stays
+machine-checked on the pinned variant of the step (`C01.pinned_relink_miscredit`).
 -/
 import Uniflow.Proofs.WriterSim
 import Uniflow.Model.Pump
@@ -56,35 +56,46 @@ theorem setCell_len {rows rows' : List Row} {h i : Nat} {a : Ans} (hs : setCell 
 theorem eraseCol_len (i : Nat) (rows : List Row) : (eraseCol i rows).length = rows.length := by
   simp [eraseCol]
 
-/-- `(*Writer).receive` never indexes out of range, keeps the head row incomplete, and emits
-exactly the rows it removes. -/
-theorem receive_facts (m : W) (a : Ans) (r : RId)
+/-- `(*Writer).receive` never indexes out of range (given the parallel slices `readers`/`links`
+have equal length), keeps the head row incomplete, and emits exactly the rows it removes. -/
+theorem receive_facts (m : W) (a : Ans) (r : RId) (g : Nat)
     (hh : ∀ row rest, m.rows = row :: rest → hasNil row = true) :
-    (∀ k, (receive m a r).2.ret ≠ .panic k) ∧
-    (∀ row rest, (receive m a r).1.rows = row :: rest → hasNil row = true) ∧
-    (receive m a r).2.emits.length + (receive m a r).1.rows.length = m.rows.length ∧
-    (receive m a r).2.deliv = [] := by
-  simp only [receive]
+    (m.links.length = m.readers.length → ∀ k, (receive m a r g).2.ret ≠ .panic k) ∧
+    (∀ row rest, (receive m a r g).1.rows = row :: rest → hasNil row = true) ∧
+    (receive m a r g).2.emits.length + (receive m a r g).1.rows.length = m.rows.length ∧
+    (receive m a r g).2.deliv = [] ∧
+    (receive m a r g).1.readers = m.readers ∧ (receive m a r g).1.links = m.links := by
+  simp only [receive, receiveWith]
   split
-  · exact ⟨by simp, hh, by simp, rfl⟩
+  · exact ⟨by simp, hh, by simp, rfl, rfl, rfl⟩
   split
-  · exact ⟨by simp, hh, by simp, rfl⟩
-  rename_i index _
+  · exact ⟨by simp, hh, by simp, rfl, rfl, rfl⟩
+  rename_i index hidx
+  split
+  · rename_i hnone
+    refine ⟨?_, hh, by simp, rfl, rfl, rfl⟩
+    intro hl
+    have := indexOf_lt hidx
+    rw [← hl] at this
+    rw [List.getElem?_eq_getElem this] at hnone
+    cases hnone
+  split
+  · exact ⟨by simp, hh, by simp, rfl, rfl, rfl⟩
   cases hih : indexOfHead index m.rows with
   | panic => exact absurd hih (indexOfHead_ne_panic _ _)
-  | notFound => exact ⟨by simp, hh, by simp, rfl⟩
+  | notFound => exact ⟨by simp, hh, by simp, rfl, rfl, rfl⟩
   | found head =>
     obtain ⟨rows', hset, _, hne0⟩ := indexOfHead_found a hih
     have hlen := setCell_len hset
     simp only [hset]
     split
-    · refine ⟨by simp, mflush_head _ _, ?_, rfl⟩
+    · refine ⟨by simp, mflush_head _ _, ?_, rfl, rfl, rfl⟩
       have := mflush_len false rows'
       simp only at this ⊢
       omega
     · rename_i h0
       obtain ⟨row, rest, rest', e1, _, e2⟩ := hne0 h0
-      refine ⟨by simp, ?_, by simp [hlen], rfl⟩
+      refine ⟨by simp, ?_, by simp [hlen], rfl, rfl, rfl⟩
       intro row' rest'' he
       simp only [e2, List.cons.injEq] at he
       rw [← he.1]
@@ -118,78 +129,110 @@ theorem newRow_hasNil {closed : RId → Bool} {l : List RId} (h : (accepting clo
   simp only [hasNil, newRow, List.any_map, List.any_eq_true]
   exact ⟨a, ha'.1, by simp [ha'.2]⟩
 
+/-- `readers` and `links` are parallel. -/
+def LinksOK (m : W) : Prop := m.links.length = m.readers.length
+
 theorem step_facts (m : W) (st : Step) (hh : HeadOpen m) :
-    (∀ k, (Writer.step m st).2.ret ≠ .panic k) ∧ HeadOpen (Writer.step m st).1 ∧
+    (LinksOK m → (∀ k, (Writer.step m st).2.ret ≠ .panic k) ∧ LinksOK (Writer.step m st).1) ∧
+    HeadOpen (Writer.step m st).1 ∧
     (Writer.step m st).2.emits.length + (Writer.step m st).1.rows.length =
       m.rows.length + (if isAccepted st (Writer.step m st).2 then 1 else 0) := by
   cases st with
   | link r =>
-    simp only [Writer.step]
+    simp only [Writer.step, stepWith]
     split
-    · exact ⟨by simp, hh, by simp [isAccepted]⟩
+    · exact ⟨fun hl => ⟨by simp, hl⟩, hh, by simp [isAccepted]⟩
     · split
-      · exact ⟨by simp, hh, by simp [isAccepted]⟩
-      · exact ⟨by simp, hh, by simp [isAccepted]⟩
+      · exact ⟨fun hl => ⟨by simp, hl⟩, hh, by simp [isAccepted]⟩
+      · exact ⟨fun hl => ⟨by simp, by simpa [LinksOK] using hl⟩, hh, by simp [isAccepted]⟩
   | unlink r =>
-    simp only [Writer.step]
+    simp only [Writer.step, stepWith]
     split
-    · exact ⟨by simp, hh, by simp [isAccepted]⟩
+    · exact ⟨fun hl => ⟨by simp, hl⟩, hh, by simp [isAccepted]⟩
     · split
-      · exact ⟨by simp, hh, by simp [isAccepted]⟩
-      · rename_i i _
-        refine ⟨by simp, mflush_head _ _, ?_⟩
-        have := mflush_len true (eraseCol i m.rows)
-        rw [eraseCol_len] at this
-        simpa [isAccepted] using this
+      · exact ⟨fun hl => ⟨by simp, hl⟩, hh, by simp [isAccepted]⟩
+      · rename_i i hidx
+        split
+        · rename_i hle
+          refine ⟨fun hl => ?_, hh, by simp [isAccepted]⟩
+          have := indexOf_lt hidx
+          simp only [LinksOK] at hl
+          omega
+        · refine ⟨fun hl => ⟨by simp, ?_⟩, mflush_head _ _, ?_⟩
+          · simp only [LinksOK] at hl ⊢
+            show (m.links.eraseIdx i).length = (m.readers.eraseIdx i).length
+            rw [List.length_eraseIdx, List.length_eraseIdx, hl]
+          · have := mflush_len true (eraseCol i m.rows)
+            rw [eraseCol_len] at this
+            simpa [isAccepted] using this
   | write v =>
-    simp only [Writer.step]
+    simp only [Writer.step, stepWith]
     split
-    · exact ⟨by simp, hh, by simp [isAccepted]⟩
+    · exact ⟨fun hl => ⟨by simp, hl⟩, hh, by simp [isAccepted]⟩
     · split
-      · exact ⟨by simp, hh, by simp [isAccepted]⟩
+      · exact ⟨fun hl => ⟨by simp, hl⟩, hh, by simp [isAccepted]⟩
       · split
-        · rename_i hacc
-          refine ⟨by simp, ?_, ?_⟩
-          · intro row rest he
-            cases hs : m.rows with
-            | nil =>
-              simp only [hs, List.nil_append, List.cons.injEq] at he
-              rw [← he.1]; exact newRow_hasNil hacc
-            | cons r0 t0 =>
-              simp only [hs, List.cons_append, List.cons.injEq] at he
-              rw [← he.1]; exact hh r0 t0 hs
-          · obtain ⟨n, hn⟩ : ∃ n, (accepting m.closed m.readers).length = n + 1 :=
-              ⟨(accepting m.closed m.readers).length - 1, by omega⟩
-            simp [isAccepted, hn]
-        · exact ⟨by simp, hh, by simp [isAccepted]⟩
+        · rename_i hlt
+          refine ⟨fun hl => ?_, hh, by simp [isAccepted]⟩
+          simp only [LinksOK] at hl
+          omega
+        · split
+          · rename_i hacc
+            refine ⟨fun hl => ⟨by simp, hl⟩, ?_, ?_⟩
+            · intro row rest he
+              cases hs : m.rows with
+              | nil =>
+                simp only [hs, List.nil_append, List.cons.injEq] at he
+                rw [← he.1]; exact newRow_hasNil hacc
+              | cons r0 t0 =>
+                simp only [hs, List.cons_append, List.cons.injEq] at he
+                rw [← he.1]; exact hh r0 t0 hs
+            · obtain ⟨n, hn⟩ : ∃ n, (accepting m.closed m.readers).length = n + 1 :=
+                ⟨(accepting m.closed m.readers).length - 1, by omega⟩
+              simp [isAccepted, hn]
+          · exact ⟨fun hl => ⟨by simp, hl⟩, hh, by simp [isAccepted]⟩
   | answer r a =>
-    simp only [Writer.step]
+    simp only [Writer.step, stepWith]
     split
-    · exact ⟨by simp, hh, by simp [isAccepted]⟩
-    · have := receive_facts { m with pend := fun x => if x = r then m.pend r - 1 else m.pend x } a r hh
-      exact ⟨this.1, this.2.1, by simpa [isAccepted] using this.2.2.1⟩
+    · exact ⟨fun hl => ⟨by simp, hl⟩, hh, by simp [isAccepted]⟩
+    · rename_i g rest _
+      have := receive_facts { m with pend := fun x => if x = r then rest else m.pend x } a r g hh
+      refine ⟨fun hl => ⟨this.1 hl, ?_⟩, this.2.1, by simpa [isAccepted] using this.2.2.1⟩
+      simp only [LinksOK] at hl ⊢
+      have e1 := this.2.2.2.2.1
+      have e2 := this.2.2.2.2.2
+      simp only [receive] at e1 e2
+      rw [e1, e2]; exact hl
   | closeR r =>
-    simp only [Writer.step]
+    simp only [Writer.step, stepWith]
     split
-    · exact ⟨by simp, hh, by simp [isAccepted]⟩
-    · exact ⟨by simp, hh, by simp [isAccepted]⟩
+    · exact ⟨fun hl => ⟨by simp, hl⟩, hh, by simp [isAccepted]⟩
+    · exact ⟨fun hl => ⟨by simp, hl⟩, hh, by simp [isAccepted]⟩
   | deliverDrop r =>
-    simp only [Writer.step]
+    simp only [Writer.step, stepWith]
     split
-    · exact ⟨by simp, hh, by simp [isAccepted]⟩
-    · have := receive_facts { m with drops := fun x => if x = r then m.drops r - 1 else m.drops x } Ans.dropped r hh
-      refine ⟨?_, this.2.1, by simpa [isAccepted] using this.2.2.1⟩
-      intro k
-      have h1 := this.1
-      generalize (receive { m with drops := fun x => if x = r then m.drops r - 1 else m.drops x } Ans.dropped r).2.ret = rr at h1 ⊢
-      cases rr <;> simp_all
+    · exact ⟨fun hl => ⟨by simp, hl⟩, hh, by simp [isAccepted]⟩
+    · rename_i g rest _
+      have := receive_facts { m with drops := fun x => if x = r then rest else m.drops x } Ans.dropped r g hh
+      refine ⟨fun hl => ⟨?_, ?_⟩, this.2.1, by simpa [isAccepted] using this.2.2.1⟩
+      · intro k
+        have h1 := this.1 hl
+        simp only [receive] at h1
+        generalize (receiveWith true { m with drops := fun x => if x = r then rest else m.drops x } Ans.dropped r g).2.ret = rr at h1 ⊢
+        cases rr <;> simp_all
+      · simp only [LinksOK] at hl ⊢
+        have e1 := this.2.2.2.2.1
+        have e2 := this.2.2.2.2.2
+        simp only [receive] at e1 e2
+        show (receiveWith true _ Ans.dropped r g).1.links.length = (receiveWith true _ Ans.dropped r g).1.readers.length
+        rw [e1, e2]; exact hl
   | closeW =>
-    simp only [Writer.step]
+    simp only [Writer.step, stepWith]
     split
-    · exact ⟨by simp, hh, by simp [isAccepted]⟩
-    · exact ⟨by simp, by simp [HeadOpen], by simp [isAccepted]⟩
+    · exact ⟨fun hl => ⟨by simp, hl⟩, hh, by simp [isAccepted]⟩
+    · exact ⟨fun _ => ⟨by simp, by simp [LinksOK]⟩, by simp [HeadOpen], by simp [isAccepted]⟩
 
-theorem run_facts (m : W) (h : List Step) (hh : HeadOpen m) :
+theorem run_facts (m : W) (h : List Step) (hh : HeadOpen m) (hl : LinksOK m) :
     (∀ o ∈ (Writer.runFrom m h).2, ∀ k, o.ret ≠ .panic k) ∧ HeadOpen (Writer.runFrom m h).1 ∧
     (emitted (Writer.runFrom m h).2).length + (Writer.runFrom m h).1.rows.length =
       m.rows.length + acceptedCount h (Writer.runFrom m h).2 := by
@@ -197,12 +240,13 @@ theorem run_facts (m : W) (h : List Step) (hh : HeadOpen m) :
   | nil => exact ⟨by simp [Writer.runFrom], hh, by simp [Writer.runFrom, emitted, acceptedCount]⟩
   | cons st h ih =>
     obtain ⟨s1, s2, s3⟩ := step_facts m st hh
-    obtain ⟨i1, i2, i3⟩ := ih (Writer.step m st).1 s2
+    obtain ⟨s1a, s1b⟩ := s1 hl
+    obtain ⟨i1, i2, i3⟩ := ih (Writer.step m st).1 s2 s1b
     refine ⟨?_, i2, ?_⟩
     · intro o ho
       simp only [Writer.runFrom, List.mem_cons] at ho
       rcases ho with rfl | ho
-      · exact s1
+      · exact s1a
       · exact i1 o ho
     · simp only [Writer.runFrom, emitted, List.flatMap_cons, List.length_append, acceptedCount] at i3 ⊢
       omega
@@ -347,24 +391,24 @@ instance decNoRelink : (m : W) → (h : List Step) → Decidable (NoRelink m h)
     have := decNoRelink (Writer.step m s).1 h
     inferInstanceAs (Decidable (relinkPending m s = false ∧ NoRelink (Writer.step m s).1 h))
 
-/-- The index arithmetic of `indexOfHead`, `receive` and `Unlink` never leaves range: no step of
-any history panics. -/
+/-- The index arithmetic of `indexOfHead`, `receive`, `Unlink` and `Write` (rows, columns and the
+parallel slices `readers`/`links`) never leaves range: no step of any history panics. -/
 theorem C01.no_panic (h : List Step) : ∀ o ∈ (Writer.run h).2, ∀ k, o.ret ≠ Ret.panic k :=
-  (run_facts W.init h (by simp [HeadOpen, W.init])).1
+  (run_facts W.init h (by simp [HeadOpen, W.init]) (by simp [LinksOK, W.init])).1
 
 /-- No complete row ever waits: after any history the head pending row (if any) still lacks an
 answer.  (This is what failed before the `receive` fix, DESIGN.md §7 row 4.) -/
 theorem C01.head_incomplete (h : List Step) :
     ∀ row rest, (Writer.run h).1.rows = row :: rest → hasNil row = true :=
-  (run_facts W.init h (by simp [HeadOpen, W.init])).2.1
+  (run_facts W.init h (by simp [HeadOpen, W.init]) (by simp [LinksOK, W.init])).2.1
 
 /-- Exactly one response per accepted write: after any history, the number of responses pushed
 into the pump plus the number of writes still pending equals the number of writes that reported
 at least one accepting reader.  Together with `C01.head_incomplete` (a pending write is never
-complete) and `C01.pending_backed_partial` below this is "exactly one, none for unaccepted writes". -/
+complete) and `C01.pending_backed` below this is "exactly one, none for unaccepted writes". -/
 theorem C01.exactly_one_response (h : List Step) :
     (emitted (Writer.run h).2).length + (Writer.run h).1.rows.length = acceptedCount h (Writer.run h).2 := by
-  have := (run_facts W.init h (by simp [HeadOpen, W.init])).2.2
+  have := (run_facts W.init h (by simp [HeadOpen, W.init]) (by simp [LinksOK, W.init])).2.2
   rw [show W.init.rows.length = 0 from rfl, Nat.zero_add] at this
   exact this
 
@@ -373,48 +417,73 @@ reports zero accepting readers produces no response (DESIGN.md §7 row 3), and i
 theorem C01.unaccepted_write_emits_nothing (m : W) (v : Nat) :
     (Writer.step m (.write v)).2.emits = [] ∧
     ((Writer.step m (.write v)).2.ret = .cnt 0 → (Writer.step m (.write v)).1.rows = m.rows) := by
-  simp only [Writer.step]
+  simp only [Writer.step, stepWith]
   split
   · simp
   · split
     · simp
     · split
-      · rename_i h
-        refine ⟨rfl, ?_⟩
-        intro h0
-        simp only [Ret.cnt.injEq] at h0
-        omega
       · simp
+      · split
+        · rename_i h
+          refine ⟨rfl, ?_⟩
+          intro h0
+          simp only [Ret.cnt.injEq] at h0
+          omega
+        · simp
 
-/-- Refinement of the id-keyed specification (observations = per-step return value, responses,
-deliveries), for every history that never re-links an open reader which still has unanswered
-requests.  `_partial`: the hypothesis `NoRelink` is exactly the negation of the class predicate
-of the known finding `relink-with-pending`; without it the statement is false
-(`C01.refines_full_false`). -/
-theorem C01.refines_partial (h : List Step) (hn : NoRelink W.init h) :
-    (Writer.run h).2 = (WriterSpec.run h).2 := by
-  have := sim_run inv_init h (by rw [absW_init]; exact hn)
-  rw [absW_init] at this
-  exact this.1
-
-/-- Non-vacuity: a history with a late link, a close between writes, a deferred drop notice, an
-unlink and a (harmless) re-link satisfies `NoRelink` and emits four responses (two of them in one step). -/
-theorem C01.refines_partial_nonvacuous :
-    ∃ h, NoRelink W.init h ∧ emitted (Writer.run h).2 = [.err [0], .err [0], .val 6, .vals [8, 7]] :=
-  ⟨[.link 0, .write 1, .link 1, .write 2, .answer 1 (.val 9), .closeR 0, .write 3, .answer 1 (.val 6),
-    .deliverDrop 0, .deliverDrop 0, .unlink 1, .link 1, .link 2, .write 4, .answer 2 (.val 7), .answer 1 (.val 8)],
-   by decide⟩
-
-/-- The full refinement statement (kept; false for the model as for the Go code). -/
+/-- The refinement statement: on every history the model shows, step by step, exactly what the
+id-keyed specification shows (return value, responses, deliveries). -/
 def C01.refines_full : Prop := ∀ h : List Step, (Writer.run h).2 = (WriterSpec.run h).2
 
-/-- Witness of the known finding: unlink with a request outstanding, re-link, write again – the
-late answer to the first write is emitted as the response to the second. -/
-theorem C01.refines_full_false : ¬ C01.refines_full := by
+/-- Refinement of the id-keyed specification, for every history – unlink and re-link with
+requests outstanding included (the link generations make a late answer to a request of a removed
+link a no-op, exactly as the specification ignores an answer whose slot is gone). -/
+theorem C01.refines : C01.refines_full := fun h => (sim_run rel_init h).1
+
+/-- The history that used to be the witness of the known finding `relink-with-pending`: the late
+answer to write 1 is refused, the answer to write 2 is its response. -/
+theorem C01.refines_relink_witness :
+    (Writer.run [.link 0, .write 1, .unlink 0, .link 0, .write 2, .answer 0 (.val 1), .answer 0 (.val 2)]).2.map
+        (fun o => (o.ret, o.emits)) =
+      [(.ok true, []), (.cnt 1, []), (.ok true, [.err [0]]), (.ok true, []), (.cnt 1, []), (.ok false, []),
+       (.ok true, [.val 2])] := by decide
+
+/-- The defect the link generations repair, kept machine-checked on the code as it was before
+(`stepPinned`: `receive` without the generation test): unlink with a request outstanding, re-link,
+write again – the late answer to the first write is emitted as the response to the second, so the
+pinned model does not refine the specification. -/
+theorem C01.pinned_relink_miscredit :
+    ¬ ∀ h : List Step, (Writer.runFromPinned W.init h).2 = (WriterSpec.run h).2 := by
   intro hf
   have := hf [.link 0, .write 1, .unlink 0, .link 0, .write 2, .answer 0 (.val 1), .answer 0 (.val 2)]
   revert this
   decide
+
+/-- A response carrying a generation other than the reader's current link generation (a request
+of a link that `Unlink` removed, or of a reader that is not linked) changes nothing and emits
+nothing, in every state: where such a response – in particular a stale drop notice – is placed
+in a schedule cannot be observed. -/
+theorem C01.stale_response_ignored (m : W) (a : Ans) (r : RId) (g : Nat)
+    (hl : m.links.length = m.readers.length) (hs : linkOf m r ≠ some g) :
+    receive m a r g = (m, { ret := .ok false }) := by
+  simp only [receive, receiveWith]
+  split
+  · rfl
+  split
+  · rfl
+  rename_i index hidx
+  simp only [linkOf, hidx] at hs
+  split
+  · rename_i hnone
+    have := indexOf_lt hidx
+    rw [← hl] at this
+    rw [List.getElem?_eq_getElem this] at hnone
+    cases hnone
+  · rename_i l hsome
+    rw [hsome] at hs
+    have : (l != g) = true := by simpa using fun e => hs (by rw [e])
+    simp [this]
 
 /-- Order = write order, stated on the specification for every history: the write ids of the
 responses emitted so far followed by the ids of the pending rows are exactly `0, 1, …, n-1`, where
@@ -438,44 +507,51 @@ theorem C01.spec_in_order (h : List Step) :
   rw [List.take_left, List.take_range, Nat.min_eq_left hle] at this
   rw [← h2]; exact this
 
-/-- Order and count transported to the model (under `NoRelink`): its responses are the
-specification's, so the k-th response pushed into the pump answers the k-th accepted write. -/
-theorem C01.in_order_partial (h : List Step) (hn : NoRelink W.init h) :
+/-- Order and count on the model, for every history: its responses are the specification's, so
+the k-th response pushed into the pump answers the k-th accepted write. -/
+theorem C01.in_order (h : List Step) :
     emitted (Writer.run h).2 = emitted (WriterSpec.run h).2 ∧
     (WriterSpec.run h).1.emittedIds = List.range (emitted (Writer.run h).2).length := by
-  rw [C01.refines_partial h hn]
+  rw [C01.refines h]
   exact ⟨rfl, (C01.spec_in_order h).2.2.2⟩
 
-/-- Every answer a pending row still waits for is backed by an unanswered request in that
-reader's FIFO (open reader) or by a drop notice still in flight (closed reader): the model state
-is the abstraction of the specification state, and for every linked reader the rows that owe it
-an answer are exactly its queue.  `_partial`: needs `NoRelink` (after a re-link with a request
-outstanding the reader's FIFO no longer matches the rows – that is the known finding). -/
-theorem C01.pending_backed_partial (h : List Step) (hn : NoRelink W.init h) :
-    (Writer.run h).1 = absW (WriterSpec.run h).1 ∧
-    ∀ r ∈ (WriterSpec.run h).1.linked,
-      ((WriterSpec.run h).1.closed r = false →
-        (owedBy (WriterSpec.run h).1.rows r).length = (Writer.run h).1.pend r) ∧
-      ((WriterSpec.run h).1.closed r = true →
-        (owedBy (WriterSpec.run h).1.rows r).length ≤ (Writer.run h).1.drops r) := by
-  have := sim_run inv_init h (by rw [absW_init]; exact hn)
-  rw [absW_init] at this
-  obtain ⟨_, h2, h3⟩ := this
-  unfold Writer.run WriterSpec.run
-  refine ⟨h2, ?_⟩
-  intro r hr
-  rw [h2]
-  have := h3.owe r hr
-  simp only [OweOK] at this
-  constructor
-  · intro hc
-    rcases this with e | e
-    · simp [absW, hc, e]
-    · rw [hc] at e; exact absurd e.1 (by simp)
-  · intro hc
-    rcases this with e | e
-    · simp [absW, hc, e]
-    · simp [e.2]
+namespace Uniflow.WriterProofs
+
+theorem fifoOK_count {cur : Option Nat} {gs ws ob : List Nat} (h : FifoOK cur gs ws ob) :
+    (gs.filter fun g => some g == cur).length = ob.length := by
+  induction gs generalizing ws ob with
+  | nil => cases ws <;> simp_all [FifoOK]
+  | cons g gs ih =>
+    cases ws with
+    | nil => simp [FifoOK] at h
+    | cons w ws =>
+      simp only [FifoOK] at h
+      split at h
+      · rename_i hc
+        obtain ⟨ob', e, h'⟩ := h
+        have hb : (some g == cur) = true := by simpa using hc
+        simp only [List.filter_cons, hb, if_true, List.length_cons, e, ih h']
+      · rename_i hc
+        have hb : (some g == cur) = false := by simpa using hc
+        simp only [List.filter_cons, hb, Bool.false_eq_true, if_false]
+        exact ih h.2
+
+end Uniflow.WriterProofs
+
+/-- Every answer a pending row still waits for is backed, after every history: the model's rows
+are the specification's rows read column-wise, and for every reader the rows that still owe it an
+answer are as many as the entries of its queue – unanswered requests while it is open, drop
+notices in flight once it is closed – that carry its current link generation, i.e. that
+`receive` will accept and credit to those rows, oldest first. -/
+theorem C01.pending_backed (h : List Step) :
+    (Writer.run h).1.rows = (WriterSpec.run h).1.rows.map SRow.cells ∧
+    (Writer.run h).1.readers = (WriterSpec.run h).1.linked ∧
+    ∀ r, (owedBy (WriterSpec.run h).1.rows r).length =
+      ((if (Writer.run h).1.closed r then (Writer.run h).1.drops r else (Writer.run h).1.pend r).filter
+        fun g => some g == linkOf (Writer.run h).1 r).length := by
+  have hR := (sim_run rel_init h).2
+  refine ⟨hR.rows, hR.readers, fun r => ?_⟩
+  exact (fifoOK_count (hR.fifo r)).symm
 
 /-! ### `Join` as the statement describes it -/
 
